@@ -288,8 +288,10 @@ int main(void)
 		if (r == 2) { reset_all(); continue; }
 		if (H_IS(0, "extents") && h_ntok == 1) {
 			/* cross-check of translate/gen_xds.py against the compiled code */
-			printf("ok dbuf=%u dcls=%u dsub=%u dpkt=%u sbuf=%u scls=%u ssub=%u misc=%d\n",
-			       (unsigned) sizeof xd->subpacket[0][0].buffer, (unsigned) VBI_XDS_MAX_CLASSES,
+			printf("ok dbuf=%u dcls=%u dsub=%u dmaxsub=%u dpkt=%u sbuf=%u scls=%u ssub=%u misc=%d\n",
+			       (unsigned) sizeof xd->subpacket[0][0].buffer,
+			       (unsigned) (sizeof xd->subpacket / sizeof xd->subpacket[0]),
+			       (unsigned) (sizeof xd->subpacket[0] / sizeof xd->subpacket[0][0]),
 			       (unsigned) VBI_XDS_MAX_SUBCLASSES, (unsigned) sizeof xd->curr.buffer,
 			       (unsigned) sizeof vbi->cc.sub_packet[0][0].buffer,
 			       (unsigned) (sizeof vbi->cc.sub_packet / sizeof vbi->cc.sub_packet[0]),
